@@ -300,7 +300,7 @@ pub fn is_noop(bytes: &[u8], m: &Mutation) -> bool {
 /// Sorted, de-duplicated, all `< len`.
 pub fn stratified_positions(regions: &[Region], len: usize, rng: &mut SplitMix64, payload_samples: usize) -> Vec<usize> {
     let mut v: Vec<usize> = vec![];
-    let mut push = |p: i64, v: &mut Vec<usize>| {
+    let push = |p: i64, v: &mut Vec<usize>| {
         if p >= 0 && (p as usize) < len {
             v.push(p as usize);
         }
@@ -1440,4 +1440,1144 @@ fn gen_riff(cx: &mut Cx, w: &mut W, kind: &str) {
     }
 }
 
-include!("assets_more.rs");
+// ------------------------------------------------------------------------------------------------
+// TIFF (classic, II / MM, multi-page, strips or tiles in any file order, XMP, Exif IFD, SubIFD)
+// ------------------------------------------------------------------------------------------------
+
+#[derive(Clone)]
+enum TVal {
+    /// value bytes (file byte order), stored inline when <= 4 bytes, else out of line
+    Bytes(Vec<u8>),
+    /// array of LONG offsets to blobs (strip / tile data)
+    Offsets(Vec<usize>),
+    /// LONG offsets to child IFD blobs
+    Ifds(Vec<usize>),
+}
+
+#[derive(Clone)]
+struct TEnt {
+    tag: u16,
+    typ: u16,
+    count: u32,
+    val: TVal,
+}
+
+enum TBlob {
+    Raw(Vec<u8>),
+    /// an IFD: entries + index of the next IFD blob
+    Ifd(Vec<TEnt>, Option<usize>),
+    /// out-of-line array of offsets to other blobs
+    OffArray(Vec<usize>),
+}
+
+struct TB {
+    name: String,
+    blob: TBlob,
+    off: usize,
+}
+
+fn tiff_size(b: &TBlob) -> usize {
+    match b {
+        TBlob::Raw(v) => v.len(),
+        TBlob::Ifd(e, _) => 2 + 12 * e.len() + 4,
+        TBlob::OffArray(v) => 4 * v.len(),
+    }
+}
+
+fn gen_tiff(cx: &mut Cx, w: &mut W) {
+    let le = cx.pick(&[true, false]);
+    let u16b = move |v: usize| if le { (v as u16).to_le_bytes() } else { (v as u16).to_be_bytes() };
+    let u32b = move |v: usize| if le { (v as u32).to_le_bytes() } else { (v as u32).to_be_bytes() };
+    let npages = cx.pick(&[1usize, 1, 2, 3]);
+    let mut blobs: Vec<TB> = vec![];
+    let mut page_ifds: Vec<usize> = vec![];
+
+    // builds one image IFD (page or SubIFD) and its data blobs; returns the IFD blob index
+    fn image_ifd(
+        cx: &mut Cx,
+        blobs: &mut Vec<TB>,
+        name: &str,
+        first_page: bool,
+        budget: usize,
+        u16b: &dyn Fn(usize) -> [u8; 2],
+        u32b: &dyn Fn(usize) -> [u8; 4],
+        allow_sub: bool,
+    ) -> usize {
+        let spp = cx.pick(&[1usize, 3]);
+        let width = cx.range(1, 40);
+        let tiled = cx.chance(1, 5);
+        let nseg = cx.range(1, 4);
+        let rows_per = (budget / nseg / (width * spp)).max(1);
+        let mut ents: Vec<TEnt> = vec![];
+        let short = |tag: u16, v: usize| TEnt { tag, typ: 3, count: 1, val: TVal::Bytes(u16b(v).to_vec()) };
+        let long = |tag: u16, v: usize| TEnt { tag, typ: 4, count: 1, val: TVal::Bytes(u32b(v).to_vec()) };
+        if cx.chance(1, 3) {
+            ents.push(long(254, if first_page { 0 } else { 2 }));
+        }
+        ents.push(if cx.chance(1, 2) { short(256, width) } else { long(256, width) });
+        ents.push(short(257, rows_per * nseg));
+        let mut bps = vec![];
+        for _ in 0..spp {
+            bps.extend_from_slice(&u16b(8));
+        }
+        ents.push(TEnt { tag: 258, typ: 3, count: spp as u32, val: TVal::Bytes(bps) });
+        ents.push(short(259, 1));
+        ents.push(short(262, if spp == 3 { 2 } else { 1 }));
+        if cx.chance(1, 3) {
+            let n = cx.range(1, 40);
+            let mut s = cx.ascii(n);
+            s.push(0);
+            ents.push(TEnt { tag: 270, typ: 2, count: s.len() as u32, val: TVal::Bytes(s) });
+        }
+        let mut seg_ids = vec![];
+        let mut counts = vec![];
+        for i in 0..nseg {
+            let n = if tiled { width * spp * rows_per } else { width * spp * rows_per };
+            let data = cx.bytes(n);
+            counts.push(n);
+            blobs.push(TB { name: format!("{name}.{}[{i}].data", if tiled { "tile" } else { "strip" }), blob: TBlob::Raw(data), off: 0 });
+            seg_ids.push(blobs.len() - 1);
+        }
+        let short_counts = counts.iter().all(|c| *c < 65536) && cx.chance(1, 2);
+        let mut cb = vec![];
+        for c in &counts {
+            if short_counts {
+                cb.extend_from_slice(&u16b(*c));
+            } else {
+                cb.extend_from_slice(&u32b(*c));
+            }
+        }
+        let counts_ent = |tag: u16| TEnt { tag, typ: if short_counts { 3 } else { 4 }, count: nseg as u32, val: TVal::Bytes(cb.clone()) };
+        if tiled {
+            ents.push(short(277, spp));
+            ents.push(short(322, width));
+            ents.push(short(323, rows_per));
+            ents.push(TEnt { tag: 324, typ: 4, count: nseg as u32, val: TVal::Offsets(seg_ids.clone()) });
+            ents.push(counts_ent(325));
+        } else {
+            ents.push(TEnt { tag: 273, typ: 4, count: nseg as u32, val: TVal::Offsets(seg_ids.clone()) });
+            ents.push(short(277, spp));
+            ents.push(short(278, rows_per));
+            ents.push(counts_ent(279));
+        }
+        if cx.chance(1, 2) {
+            for tag in [282u16, 283] {
+                let mut r = u32b(72).to_vec();
+                r.extend_from_slice(&u32b(1));
+                ents.push(TEnt { tag, typ: 5, count: 1, val: TVal::Bytes(r) });
+            }
+            ents.push(short(296, 2));
+        }
+        if cx.chance(1, 4) {
+            ents.push(TEnt { tag: 305, typ: 2, count: 6, val: TVal::Bytes(b"verif\0".to_vec()) });
+        }
+        if allow_sub && cx.chance(1, 6) {
+            let nsub = cx.range(1, 2);
+            let mut ids = vec![];
+            for s in 0..nsub {
+                ids.push(image_ifd(cx, blobs, &format!("{name}.sub{s}"), false, 60, u16b, u32b, false));
+            }
+            ents.push(TEnt { tag: 330, typ: 4, count: nsub as u32, val: TVal::Ifds(ids) });
+        }
+        if first_page && cx.chance(1, 3) {
+            let x = cx.xmp();
+            ents.push(TEnt { tag: 700, typ: 1, count: x.len() as u32, val: TVal::Bytes(x) });
+        }
+        if allow_sub && cx.chance(1, 5) {
+            let exif = vec![
+                TEnt { tag: 36864, typ: 7, count: 4, val: TVal::Bytes(b"0231".to_vec()) },
+                TEnt { tag: 37510, typ: 7, count: 20, val: TVal::Bytes(cx.bytes(20)) },
+            ];
+            blobs.push(TB { name: format!("{name}.exif"), blob: TBlob::Ifd(exif, None), off: 0 });
+            let id = blobs.len() - 1;
+            ents.push(TEnt { tag: 34665, typ: 4, count: 1, val: TVal::Ifds(vec![id]) });
+        }
+        ents.sort_by_key(|e| e.tag);
+        blobs.push(TB { name: name.to_string(), blob: TBlob::Ifd(ents, None), off: 0 });
+        blobs.len() - 1
+    }
+
+    for p in 0..npages {
+        let id = image_ifd(cx, &mut blobs, &format!("ifd{p}"), p == 0, cx.size / npages, &u16b, &u32b, true);
+        page_ifds.push(id);
+    }
+    for p in 0..npages.saturating_sub(1) {
+        let next = page_ifds[p + 1];
+        if let TBlob::Ifd(_, n) = &mut blobs[page_ifds[p]].blob {
+            *n = Some(next);
+        }
+    }
+    // materialise out-of-line values (> 4 bytes) and offset arrays (> 1 entry) as blobs of their own
+    let nb = blobs.len();
+    for i in 0..nb {
+        let name = blobs[i].name.clone();
+        let base = blobs.len();
+        let mut new_blobs: Vec<TB> = vec![];
+        if let TBlob::Ifd(ents, _) = &mut blobs[i].blob {
+            for e in ents.iter_mut() {
+                let nb = match &e.val {
+                    TVal::Bytes(v) if v.len() > 4 => TBlob::Raw(v.clone()),
+                    TVal::Offsets(ids) | TVal::Ifds(ids) if ids.len() > 1 => TBlob::OffArray(ids.clone()),
+                    _ => continue,
+                };
+                new_blobs.push(TB { name: format!("{name}.tag{}.data", e.tag), blob: nb, off: 0 });
+                e.val = TVal::Offsets(vec![base + new_blobs.len() - 1]);
+            }
+        }
+        blobs.extend(new_blobs);
+    }
+    // placement: header first, everything else in random order on word boundaries
+    let mut order: Vec<usize> = (0..blobs.len()).collect();
+    cx.shuffle(&mut order);
+    let mut at = 8usize;
+    let mut pads: Vec<(usize, usize)> = vec![]; // (blob index, pad before)
+    for &i in &order {
+        let align = if matches!(blobs[i].blob, TBlob::Ifd(..)) && cx.chance(1, 2) { 4 } else { 2 };
+        let mut pad = (align - at % align) % align;
+        if cx.chance(1, 10) {
+            pad += 2 * cx.range(1, 4);
+        }
+        pads.push((i, pad));
+        at += pad;
+        blobs[i].off = at;
+        at += tiff_size(&blobs[i].blob);
+    }
+    // serialise
+    w.put("header.order", if le { b"II" } else { b"MM" });
+    w.put("header.magic", &u16b(42));
+    w.offsets.push(OffsetRef {
+        table: "header.ifd0".into(),
+        entry_pos: 4,
+        width: 4,
+        target: blobs[page_ifds[0]].off,
+        target_len: tiff_size(&blobs[page_ifds[0]].blob),
+    });
+    w.put("header.ifd0-offset", &u32b(blobs[page_ifds[0]].off));
+    let offs: Vec<usize> = blobs.iter().map(|b| b.off).collect();
+    let sizes: Vec<usize> = blobs.iter().map(|b| tiff_size(&b.blob)).collect();
+    for (k, &(i, pad)) in pads.iter().enumerate() {
+        if pad > 0 {
+            w.put(format!("pad[{k}].data"), &vec![0u8; pad]);
+        }
+        debug_assert_eq!(w.pos(), blobs[i].off);
+        let name = blobs[i].name.clone();
+        match &blobs[i].blob {
+            TBlob::Raw(v) => w.put(name, v),
+            TBlob::OffArray(ids) => {
+                for (j, id) in ids.iter().enumerate() {
+                    let pos = w.pos();
+                    w.offsets.push(OffsetRef { table: format!("{}", name.trim_end_matches(".data")), entry_pos: pos, width: 4, target: offs[*id], target_len: sizes[*id] });
+                    w.put(format!("{}[{j}]", name.trim_end_matches(".data")), &u32b(offs[*id]));
+                }
+            }
+            TBlob::Ifd(ents, next) => {
+                w.put(format!("{name}.count"), &u16b(ents.len()));
+                for e in ents {
+                    let u = format!("{name}.entry{}", e.tag);
+                    w.put(format!("{u}.tag"), &u16b(e.tag as usize));
+                    w.put(format!("{u}.type"), &u16b(e.typ as usize));
+                    w.put(format!("{u}.count"), &u32b(e.count as usize));
+                    let mut field = vec![0u8; 4];
+                    match &e.val {
+                        TVal::Bytes(v) => field[..v.len()].copy_from_slice(v),
+                        TVal::Offsets(ids) | TVal::Ifds(ids) => {
+                            let id = ids[0];
+                            field = u32b(offs[id]).to_vec();
+                            let pos = w.pos();
+                            w.offsets.push(OffsetRef { table: format!("{name}.tag{}", e.tag), entry_pos: pos, width: 4, target: offs[id], target_len: sizes[id] });
+                        }
+                    }
+                    w.put(format!("{u}.value"), &field);
+                }
+                let nx = next.map(|n| offs[n]).unwrap_or(0);
+                if let Some(n) = next {
+                    let pos = w.pos();
+                    w.offsets.push(OffsetRef { table: format!("{name}.next"), entry_pos: pos, width: 4, target: offs[*n], target_len: sizes[*n] });
+                }
+                w.put(format!("{name}.next"), &u32b(nx));
+            }
+        }
+    }
+    if cx.chance(1, 6) {
+        let n = cx.range(1, 30);
+        let t = cx.bytes(n);
+        w.put("trailing.data", &t);
+        w.note("trailing");
+    }
+    w.note(format!("{} {} page(s) {} blobs", if le { "II" } else { "MM" }, npages, blobs.len()));
+}
+
+// ------------------------------------------------------------------------------------------------
+// SVG
+// ------------------------------------------------------------------------------------------------
+
+fn gen_svg(cx: &mut Cx, w: &mut W) {
+    if cx.chance(1, 5) {
+        w.put("bom", &[0xEF, 0xBB, 0xBF]);
+        w.note("bom");
+    }
+    if cx.simple || cx.chance(2, 3) {
+        let q = cx.pick(&['"', '\'']);
+        w.put("xml-decl", format!("<?xml version={q}1.0{q} encoding={q}UTF-8{q}?>").as_bytes());
+        w.put("ws[0]", cx.pick(&["\n", "\r\n", "\n\n"]).as_bytes());
+    }
+    if cx.chance(1, 4) {
+        w.put("comment[0]", b"<!-- generated for verification -->\n");
+    }
+    if cx.chance(1, 6) {
+        w.put("doctype", b"<!DOCTYPE svg PUBLIC \"-//W3C//DTD SVG 1.1//EN\" \"http://www.w3.org/Graphics/SVG/1.1/DTD/svg11.dtd\">\n");
+    }
+    let (sw, sh) = (cx.range(1, 999), cx.range(1, 999));
+    let mut open = String::from("<svg xmlns=\"http://www.w3.org/2000/svg\"");
+    if cx.chance(1, 2) {
+        open.push_str(" xmlns:xlink=\"http://www.w3.org/1999/xlink\"");
+    }
+    open.push_str(&format!(" width=\"{sw}\" height='{sh}'"));
+    if cx.chance(1, 2) {
+        open.push_str(&format!(" viewBox=\"0 0 {sw} {sh}\""));
+    }
+    if cx.chance(1, 4) {
+        open.push_str("\n    version=\"1.1\"");
+    }
+    open.push('>');
+    w.put("svg-open", open.as_bytes());
+    let mut kids: Vec<String> = vec![];
+    let nshapes = cx.range(1, (cx.size / 60).clamp(1, 400));
+    for _ in 0..nshapes {
+        let s = match cx.range(0, 5) {
+            0 => format!("<rect x=\"{}\" y=\"{}\" width=\"{}\" height=\"{}\" fill=\"#{:06x}\"/>", cx.range(0, 99), cx.range(0, 99), cx.range(1, 99), cx.range(1, 99), cx.range(0, 0xFFFFFF)),
+            1 => format!("<circle cx=\"{}\" cy=\"{}\" r=\"{}\"/>", cx.range(0, 99), cx.range(0, 99), cx.range(1, 50)),
+            2 => format!("<g id=\"g{}\"><path d=\"M{} {} L{} {} Z\"/><metadata>nested, not the C2PA place</metadata></g>", cx.range(0, 999), cx.range(0, 99), cx.range(0, 99), cx.range(0, 99), cx.range(0, 99)),
+            3 => format!("<text x=\"{}\" y=\"{}\">{} &amp; &lt;more&gt;</text>", cx.range(0, 99), cx.range(0, 99), String::from_utf8(cx.ascii(10)).unwrap()),
+            4 => format!("<style><![CDATA[ .c{} {{ fill: red; }} /* <metadata> in CDATA */ ]]></style>", cx.range(0, 99)),
+            _ => "<!-- a comment with <svg> and <metadata> inside -->".to_string(),
+        };
+        kids.push(s);
+    }
+    if cx.chance(1, 3) {
+        kids.push(format!("<title>{}</title>", String::from_utf8(cx.ascii(12)).unwrap()));
+    }
+    if cx.chance(1, 3) {
+        kids.push("<desc>\u{00e9}\u{4e2d}\u{6587} description</desc>".to_string());
+    }
+    cx.shuffle(&mut kids);
+    // at most one top-level <metadata> element (start/end form), optionally with XMP inside
+    let meta = cx.range(0, 3);
+    if meta > 0 {
+        let inner = match meta {
+            1 => String::new(),
+            2 => String::from_utf8(cx.xmp()).unwrap(),
+            _ => "<rdf:RDF xmlns:rdf=\"http://www.w3.org/1999/02/22-rdf-syntax-ns#\"><rdf:Description/></rdf:RDF>".to_string(),
+        };
+        let at = cx.range(0, kids.len());
+        kids.insert(at, format!("<metadata>{inner}</metadata>"));
+        w.note(format!("metadata{meta}"));
+    }
+    let sep = cx.pick(&["\n  ", "\n", "", "\r\n\t"]);
+    for k in kids.iter() {
+        if !sep.is_empty() {
+            let u = w.unit("ws");
+            w.put(u, sep.as_bytes());
+        }
+        let u = w.unit("child");
+        w.put(u, k.as_bytes());
+    }
+    if !sep.is_empty() {
+        let u = w.unit("ws");
+        w.put(u, b"\n");
+    }
+    w.put("svg-close", b"</svg>");
+    match cx.range(0, 3) {
+        1 => w.put("trailing", b"\n"),
+        2 => w.put("trailing", b"\n<!-- end -->\n"),
+        _ => {}
+    }
+    w.note(format!("{nshapes} shapes"));
+}
+
+// ------------------------------------------------------------------------------------------------
+// ID3v2 tag (shared by MP3 and FLAC), MP3, FLAC
+// ------------------------------------------------------------------------------------------------
+
+fn syncsafe(n: usize) -> [u8; 4] {
+    [((n >> 21) & 0x7F) as u8, ((n >> 14) & 0x7F) as u8, ((n >> 7) & 0x7F) as u8, (n & 0x7F) as u8]
+}
+
+fn gen_id3(cx: &mut Cx, w: &mut W) {
+    let v4 = cx.pick(&[false, true]);
+    let mut frames: Vec<(&'static str, Vec<u8>)> = vec![];
+    for id in ["TIT2", "TPE1", "TALB", "TCON"] {
+        if cx.chance(1, 2) {
+            let n = cx.range(1, 30);
+            let mut d = vec![if v4 && cx.chance(1, 2) { 3 } else { 0 }];
+            d.extend(cx.ascii(n));
+            frames.push((id, d));
+        }
+    }
+    if cx.chance(1, 3) {
+        let mut d = vec![0];
+        d.extend_from_slice(b"eng");
+        d.extend_from_slice(b"note\0");
+        let n = cx.range(0, 40);
+        d.extend(cx.ascii(n));
+        frames.push(("COMM", d));
+    }
+    if cx.chance(1, 3) {
+        let mut d = b"org.verif\0".to_vec();
+        let n = cx.range(0, 40);
+        d.extend(cx.bytes(n));
+        frames.push(("PRIV", d));
+    }
+    if cx.chance(1, 4) {
+        let mut d = vec![0];
+        d.extend_from_slice(b"application/octet-stream\0blob.bin\0a blob\0");
+        let n = cx.range(0, 60);
+        d.extend(cx.bytes(n));
+        frames.push(("GEOB", d));
+    }
+    if cx.chance(1, 4) {
+        let mut d = vec![0];
+        d.extend_from_slice(b"image/png\0\x03cover\0");
+        let n = cx.range(1, 80);
+        d.extend(cx.bytes(n));
+        frames.push(("APIC", d));
+    }
+    if let Some(s) = cx.store.clone() {
+        let mut d = vec![0];
+        d.extend_from_slice(b"application/c2pa\0c2pa\0c2pa manifest store\0");
+        d.extend(s);
+        frames.push(("C2PA-GEOB", d));
+    }
+    cx.shuffle(&mut frames);
+    let padding = if cx.chance(1, 3) { cx.range(1, 64) } else { 0 };
+    let body: usize = frames.iter().map(|(_, d)| 10 + d.len()).sum::<usize>() + padding;
+    let mut h = b"ID3".to_vec();
+    h.extend_from_slice(&[if v4 { 4 } else { 3 }, 0, 0]);
+    h.extend_from_slice(&syncsafe(body));
+    w.put("ID3.header", &h);
+    for (id, d) in frames {
+        let c2pa = id == "C2PA-GEOB";
+        let u = w.unit(&if c2pa { "C2PA-GEOB".to_string() } else { format!("ID3-{id}") });
+        let mut fh = (if c2pa { "GEOB" } else { id }).as_bytes().to_vec();
+        if v4 {
+            fh.extend_from_slice(&syncsafe(d.len()));
+        } else {
+            fh.extend_from_slice(&be32(d.len()));
+        }
+        fh.extend_from_slice(&[0, 0]);
+        w.put(format!("{u}.hdr"), &fh);
+        w.put(format!("{u}.data"), &d);
+    }
+    if padding > 0 {
+        w.put("ID3.padding", &vec![0u8; padding]);
+    }
+    w.note(format!("id3v2.{}", if v4 { 4 } else { 3 }));
+}
+
+fn gen_mp3(cx: &mut Cx, w: &mut W) {
+    if cx.store.is_some() || cx.chance(1, 2) {
+        gen_id3(cx, w);
+    }
+    // MPEG-1 layer III, 128 kbit/s, 44.1 kHz: 417-byte frames (418 with the padding bit)
+    let nframes = (cx.size / 417).max(1);
+    for _ in 0..nframes {
+        let pad = cx.chance(1, 4);
+        let u = w.unit("frame");
+        w.put(format!("{u}.hdr"), &[0xFF, 0xFB, if pad { 0x92 } else { 0x90 }, cx.pick(&[0x00u8, 0x40, 0xC0])]);
+        let d = cx.bytes(413 + pad as usize);
+        w.put(format!("{u}.data"), &d);
+    }
+    if cx.chance(1, 5) {
+        let mut t = b"TAG".to_vec();
+        t.extend(cx.ascii(124));
+        t.push(12);
+        w.put("ID3v1", &t);
+        w.note("id3v1");
+    }
+    w.note(format!("{nframes} frames"));
+}
+
+fn gen_flac(cx: &mut Cx, w: &mut W) {
+    if cx.store.is_some() || cx.chance(1, 3) {
+        gen_id3(cx, w);
+    }
+    w.put("fLaC", b"fLaC");
+    let mut blocks: Vec<(u8, &'static str, Vec<u8>)> = vec![];
+    if cx.chance(1, 2) {
+        let mut d = le32(5).to_vec();
+        d.extend_from_slice(b"verif");
+        d.extend_from_slice(&le32(1));
+        let c = b"TITLE=test";
+        d.extend_from_slice(&le32(c.len()));
+        d.extend_from_slice(c);
+        blocks.push((4, "VORBIS_COMMENT", d));
+    }
+    if cx.chance(1, 3) {
+        let n = cx.range(0, 64);
+        blocks.push((1, "PADDING", vec![0; n]));
+    }
+    if cx.chance(1, 3) {
+        let mut d = b"vrfy".to_vec();
+        let n = cx.range(0, 40);
+        d.extend(cx.bytes(n));
+        blocks.push((2, "APPLICATION", d));
+    }
+    if cx.chance(1, 4) {
+        blocks.push((3, "SEEKTABLE", vec![0xFF; 18]));
+    }
+    if cx.chance(1, 5) {
+        let mut d = be32(3).to_vec();
+        d.extend_from_slice(&be32(9));
+        d.extend_from_slice(b"image/png");
+        d.extend_from_slice(&be32(0));
+        d.extend_from_slice(&[0; 16]);
+        let n = cx.range(1, 60);
+        d.extend_from_slice(&be32(n));
+        d.extend(cx.bytes(n));
+        blocks.push((6, "PICTURE", d));
+    }
+    cx.shuffle(&mut blocks);
+    let mut si = vec![0x10, 0x00, 0x10, 0x00, 0, 0, 0x0E, 0, 0x10, 0x00];
+    si.extend_from_slice(&[0x0A, 0xC4, 0x42, 0xF0, 0x00, 0x00, 0x10, 0x00]);
+    si.extend(cx.bytes(16));
+    blocks.insert(0, (0, "STREAMINFO", si));
+    let last = blocks.len() - 1;
+    for (i, (t, name, d)) in blocks.iter().enumerate() {
+        let u = w.unit(name);
+        let mut h = vec![t | if i == last { 0x80 } else { 0 }];
+        h.extend_from_slice(&be32(d.len())[1..]);
+        w.put(format!("{u}.hdr"), &h);
+        w.put(format!("{u}.data"), d);
+    }
+    let nframes = cx.range(1, 4);
+    for _ in 0..nframes {
+        let u = w.unit("frame");
+        w.put(format!("{u}.hdr"), &[0xFF, 0xF8, 0xC9, 0x18]);
+        let n = cx.around(cx.size / nframes, 4);
+        let d = cx.bytes(n);
+        w.put(format!("{u}.data"), &d);
+    }
+    w.note(format!("{} metadata blocks", blocks.len()));
+}
+
+// ------------------------------------------------------------------------------------------------
+// JPEG XL container
+// ------------------------------------------------------------------------------------------------
+
+fn iso_box(w: &mut W, name: &str, typ: &[u8; 4], data: &[u8], to_eof: bool, large: bool) {
+    let u = w.unit(name);
+    let mut h = vec![];
+    if to_eof {
+        h.extend_from_slice(&be32(0));
+        h.extend_from_slice(typ);
+    } else if large {
+        h.extend_from_slice(&be32(1));
+        h.extend_from_slice(typ);
+        h.extend_from_slice(&((16 + data.len()) as u64).to_be_bytes());
+    } else {
+        h.extend_from_slice(&be32(8 + data.len()));
+        h.extend_from_slice(typ);
+    }
+    w.put(format!("{u}.hdr"), &h);
+    w.put(format!("{u}.data"), data);
+}
+
+fn gen_jxl(cx: &mut Cx, w: &mut W) {
+    iso_box(w, "JXL", b"JXL ", &[0x0D, 0x0A, 0x87, 0x0A], false, false);
+    iso_box(w, "ftyp", b"ftyp", b"jxl \0\0\0\0jxl ", false, false);
+    #[derive(Clone, Copy, PartialEq)]
+    enum J {
+        Level,
+        Exif,
+        Xml,
+        OtherJumb,
+        Unknown,
+        Code,
+        C2pa,
+    }
+    let mut pre: Vec<J> = vec![];
+    let mut post: Vec<J> = vec![];
+    for (j, num, den) in [(J::Exif, 1, 3), (J::Xml, 1, 3), (J::OtherJumb, 1, 5), (J::Unknown, 1, 6)] {
+        if cx.chance(num, den) {
+            if cx.chance(1, 2) {
+                pre.push(j)
+            } else {
+                post.push(j)
+            }
+        }
+    }
+    if cx.store.is_some() {
+        if cx.chance(2, 3) {
+            pre.push(J::C2pa)
+        } else {
+            post.push(J::C2pa)
+        }
+    }
+    cx.shuffle(&mut pre);
+    cx.shuffle(&mut post);
+    if cx.chance(1, 4) {
+        pre.insert(0, J::Level);
+    }
+    let mut seq = pre;
+    seq.push(J::Code);
+    seq.extend(post);
+    let n = seq.len();
+    for (i, j) in seq.into_iter().enumerate() {
+        let is_last = i + 1 == n;
+        match j {
+            J::Level => iso_box(w, "jxll", b"jxll", &[10], false, false),
+            J::Exif => {
+                let mut d = be32(0).to_vec();
+                d.extend_from_slice(b"II*\0\x08\0\0\0\0\0\0\0\0\0");
+                let k = cx.range(0, 40);
+                d.extend(cx.bytes(k));
+                iso_box(w, "Exif", b"Exif", &d, false, false);
+            }
+            J::Xml => {
+                let x = cx.xmp();
+                iso_box(w, "xml", b"xml ", &x, false, false);
+                w.note("xmp");
+            }
+            J::OtherJumb => {
+                // a JUMBF superbox that is not a C2PA manifest store (label "exif")
+                let mut d = be32(8 + 16 + 1 + 5).to_vec();
+                d.extend_from_slice(b"jumd");
+                d.extend_from_slice(b"json\0\x11\0\x10\x80\0\0\xAA\0\x38\x9B\x71");
+                d.push(0x03);
+                d.extend_from_slice(b"exif\0");
+                let k = cx.range(8, 60);
+                d.extend_from_slice(&be32(8 + k));
+                d.extend_from_slice(b"json");
+                d.extend(cx.ascii(k));
+                iso_box(w, "jumb", b"jumb", &d, false, false);
+                w.note("other-jumb");
+            }
+            J::Unknown => {
+                let k = cx.range(0, 40);
+                let d = cx.bytes(k);
+                iso_box(w, "vrfy", b"vrfy", &d, false, false);
+            }
+            J::C2pa => {
+                let s = cx.store.clone().unwrap();
+                let u = w.unit("C2PA-jumb");
+                w.put(format!("{u}.hdr"), &s[..8.min(s.len())]);
+                w.put(format!("{u}.data"), &s[8.min(s.len())..]);
+                w.note("c2pa");
+            }
+            J::Code => {
+                let nparts = if cx.chance(1, 2) { 0 } else { cx.range(1, 3) };
+                if nparts == 0 {
+                    let k = cx.around(cx.size, 2);
+                    let mut d = vec![0xFF, 0x0A];
+                    d.extend(cx.bytes(k));
+                    let eof = is_last && cx.chance(1, 4);
+                    let large = !eof && cx.chance(1, 6);
+                    iso_box(w, "jxlc", b"jxlc", &d, eof, large);
+                    if eof {
+                        w.note("size0-last");
+                    }
+                } else {
+                    for p in 0..nparts {
+                        let k = cx.around(cx.size / nparts, 2);
+                        let idx = p as u32 | if p + 1 == nparts { 0x8000_0000 } else { 0 };
+                        let mut d = idx.to_be_bytes().to_vec();
+                        if p == 0 {
+                            d.extend_from_slice(&[0xFF, 0x0A]);
+                        }
+                        d.extend(cx.bytes(k));
+                        let eof = is_last && p + 1 == nparts && cx.chance(1, 4);
+                        iso_box(w, "jxlp", b"jxlp", &d, eof, false);
+                        if eof {
+                            w.note("size0-last");
+                        }
+                    }
+                    w.note(format!("jxlp x{nparts}"));
+                }
+            }
+        }
+    }
+}
+
+// ------------------------------------------------------------------------------------------------
+// ISO BMFF (mp4, mov, heic, avif, m4a)
+// ------------------------------------------------------------------------------------------------
+
+#[derive(Clone)]
+struct Fix {
+    /// position inside the leaf's data
+    rel: usize,
+    width: u8,
+    blob: usize,
+    /// value = off[blob] - off[minus] (relative to an iloc base offset) when set
+    minus: Option<usize>,
+    table: String,
+    /// length of the addressed bytes (chunk / extent run)
+    len: usize,
+}
+
+enum Bx {
+    Leaf { typ: [u8; 4], full: Option<(u8, u32)>, uuid: Option<[u8; 16]>, data: Vec<u8>, fix: Vec<Fix>, large: bool, size0: bool },
+    Cont { typ: [u8; 4], full: Option<(u8, u32)>, kids: Vec<Bx> },
+}
+
+fn leaf(typ: &[u8; 4], data: Vec<u8>) -> Bx {
+    Bx::Leaf { typ: *typ, full: None, uuid: None, data, fix: vec![], large: false, size0: false }
+}
+fn fleaf(typ: &[u8; 4], v: u8, f: u32, data: Vec<u8>) -> Bx {
+    Bx::Leaf { typ: *typ, full: Some((v, f)), uuid: None, data, fix: vec![], large: false, size0: false }
+}
+fn cont(typ: &[u8; 4], kids: Vec<Bx>) -> Bx {
+    Bx::Cont { typ: *typ, full: None, kids }
+}
+
+fn bx_hdr_len(b: &Bx) -> usize {
+    match b {
+        Bx::Leaf { full, uuid, large, .. } => 8 + if *large { 8 } else { 0 } + if uuid.is_some() { 16 } else { 0 } + if full.is_some() { 4 } else { 0 },
+        Bx::Cont { full, .. } => 8 + if full.is_some() { 4 } else { 0 },
+    }
+}
+
+fn bx_size(b: &Bx) -> usize {
+    match b {
+        Bx::Leaf { data, .. } => bx_hdr_len(b) + data.len(),
+        Bx::Cont { kids, .. } => bx_hdr_len(b) + kids.iter().map(bx_size).sum::<usize>(),
+    }
+}
+
+fn bx_write(w: &mut W, b: &Bx, path: &str, blob_off: &[usize]) {
+    let tname = |t: &[u8; 4]| String::from_utf8_lossy(t).trim_end().to_string();
+    match b {
+        Bx::Leaf { typ, full, uuid, data, fix, large, size0 } => {
+            let is_c2pa = uuid.map(|u| u == BMFF_C2PA_UUID).unwrap_or(false);
+            let u = w.unit(&format!("{path}{}", if is_c2pa { "C2PA-uuid".to_string() } else { tname(typ) }));
+            let total = bx_size(b);
+            let mut h = vec![];
+            if *large {
+                h.extend_from_slice(&be32(1));
+                h.extend_from_slice(typ);
+                h.extend_from_slice(&(total as u64).to_be_bytes());
+            } else {
+                h.extend_from_slice(&be32(if *size0 { 0 } else { total }));
+                h.extend_from_slice(typ);
+            }
+            if let Some(x) = uuid {
+                h.extend_from_slice(x);
+            }
+            if let Some((v, f)) = full {
+                h.push(*v);
+                h.extend_from_slice(&f.to_be_bytes()[1..]);
+            }
+            w.put(format!("{u}.hdr"), &h);
+            let start = w.pos();
+            let mut d = data.clone();
+            for f in fix {
+                let val = match f.minus {
+                    Some(m) => blob_off[f.blob] - blob_off[m],
+                    None => blob_off[f.blob],
+                };
+                let be = (val as u64).to_be_bytes();
+                d[f.rel..f.rel + f.width as usize].copy_from_slice(&be[8 - f.width as usize..]);
+                if f.minus.is_none() {
+                    w.offsets.push(OffsetRef { table: f.table.clone(), entry_pos: start + f.rel, width: f.width, target: val, target_len: f.len });
+                }
+            }
+            w.put(format!("{u}.data"), &d);
+        }
+        Bx::Cont { typ, full, kids } => {
+            let u = w.unit(&format!("{path}{}", tname(typ)));
+            let mut h = be32(bx_size(b)).to_vec();
+            h.extend_from_slice(typ);
+            if let Some((v, f)) = full {
+                h.push(*v);
+                h.extend_from_slice(&f.to_be_bytes()[1..]);
+            }
+            w.put(format!("{u}.hdr"), &h);
+            let p = format!("{u}/");
+            for k in kids {
+                bx_write(w, k, &p, blob_off);
+            }
+        }
+    }
+}
+
+struct Blob {
+    name: String,
+    data: Vec<u8>,
+    mdat: usize,
+}
+
+fn hdlr(handler: &[u8; 4], name: &str) -> Bx {
+    let mut d = vec![0u8; 4];
+    d.extend_from_slice(handler);
+    d.extend_from_slice(&[0; 12]);
+    d.extend_from_slice(name.as_bytes());
+    d.push(0);
+    fleaf(b"hdlr", 0, 0, d)
+}
+
+fn gen_trak(cx: &mut Cx, t: usize, audio: bool, blobs: &mut Vec<Blob>, nmdat: usize, budget: usize) -> Bx {
+    let mut tkhd = vec![0u8; 80];
+    tkhd[8..12].copy_from_slice(&be32(t + 1)); // track_ID (version 0: creation, modification, track_ID)
+    let mut mdhd = vec![0u8; 20];
+    mdhd[8..12].copy_from_slice(&be32(if audio { 44100 } else { 30000 }));
+    // samples, chunks
+    let nsamples = cx.range(1, 12);
+    let fixed = cx.chance(1, 4);
+    let fsz = cx.range(1, (budget / nsamples).max(1));
+    let sizes: Vec<usize> = (0..nsamples).map(|_| if fixed { fsz } else { cx.around(budget / nsamples, 1) }).collect();
+    // partition the samples into chunks
+    let mut chunks: Vec<Vec<usize>> = vec![];
+    let mut cur: Vec<usize> = vec![];
+    let per = cx.range(1, 4);
+    for (i, _) in sizes.iter().enumerate() {
+        cur.push(i);
+        if cur.len() >= per && cx.chance(2, 3) || cur.len() >= per + 2 {
+            chunks.push(std::mem::take(&mut cur));
+        }
+    }
+    if !cur.is_empty() {
+        chunks.push(cur);
+    }
+    let mdat_for_track = cx.range(0, nmdat - 1);
+    let mut chunk_blobs = vec![];
+    for (c, ch) in chunks.iter().enumerate() {
+        let n: usize = ch.iter().map(|i| sizes[*i]).sum();
+        let m = if cx.chance(1, 4) { cx.range(0, nmdat - 1) } else { mdat_for_track };
+        blobs.push(Blob { name: format!("trak{t}.chunk{c}"), data: cx.bytes(n), mdat: m });
+        chunk_blobs.push(blobs.len() - 1);
+    }
+    // stsd with one opaque sample entry
+    let mut stsd = be32(1).to_vec();
+    let mut entry = vec![0u8; 6];
+    entry.extend_from_slice(&be16(1));
+    let k = cx.range(8, 40);
+    entry.extend(cx.bytes(k));
+    stsd.extend_from_slice(&be32(8 + entry.len()));
+    stsd.extend_from_slice(if audio { b"mp4a" } else { b"avc1" });
+    stsd.extend(entry);
+    let mut stts = be32(1).to_vec();
+    stts.extend_from_slice(&be32(nsamples));
+    stts.extend_from_slice(&be32(1001));
+    // stsc runs
+    let mut runs: Vec<(usize, usize)> = vec![];
+    for (c, ch) in chunks.iter().enumerate() {
+        if runs.last().map(|r| r.1) != Some(ch.len()) {
+            runs.push((c + 1, ch.len()));
+        }
+    }
+    let mut stsc = be32(runs.len()).to_vec();
+    for (first, per) in &runs {
+        stsc.extend_from_slice(&be32(*first));
+        stsc.extend_from_slice(&be32(*per));
+        stsc.extend_from_slice(&be32(1));
+    }
+    let mut stsz = vec![];
+    if fixed {
+        stsz.extend_from_slice(&be32(fsz));
+        stsz.extend_from_slice(&be32(nsamples));
+    } else {
+        stsz.extend_from_slice(&be32(0));
+        stsz.extend_from_slice(&be32(nsamples));
+        for s in &sizes {
+            stsz.extend_from_slice(&be32(*s));
+        }
+    }
+    let co64 = cx.chance(1, 3);
+    let wd = if co64 { 8 } else { 4 };
+    let mut co = be32(chunks.len()).to_vec();
+    let mut fix = vec![];
+    for (c, b) in chunk_blobs.iter().enumerate() {
+        fix.push(Fix { rel: 4 + c * wd, width: wd as u8, blob: *b, minus: None, table: format!("trak{t}.{}", if co64 { "co64" } else { "stco" }), len: blobs[*b].data.len() });
+        co.extend(vec![0u8; wd]);
+    }
+    let co_box = Bx::Leaf { typ: if co64 { *b"co64" } else { *b"stco" }, full: Some((0, 0)), uuid: None, data: co, fix, large: false, size0: false };
+    let mut stbl = vec![fleaf(b"stsd", 0, 0, stsd), fleaf(b"stts", 0, 0, stts)];
+    let mut tables = vec![fleaf(b"stsc", 0, 0, stsc), fleaf(b"stsz", 0, 0, stsz), co_box];
+    if !audio && cx.chance(1, 3) {
+        let mut stss = be32(1).to_vec();
+        stss.extend_from_slice(&be32(1));
+        tables.push(fleaf(b"stss", 0, 0, stss));
+    }
+    cx.shuffle(&mut tables);
+    stbl.extend(tables);
+    let mut dref = be32(1).to_vec();
+    dref.extend_from_slice(&be32(12));
+    dref.extend_from_slice(b"url ");
+    dref.extend_from_slice(&[0, 0, 0, 1]);
+    let minf = cont(
+        b"minf",
+        vec![
+            if audio { fleaf(b"smhd", 0, 0, vec![0; 4]) } else { fleaf(b"vmhd", 0, 1, vec![0; 8]) },
+            cont(b"dinf", vec![fleaf(b"dref", 0, 0, dref)]),
+            cont(b"stbl", stbl),
+        ],
+    );
+    let mdia = cont(b"mdia", vec![fleaf(b"mdhd", 0, 0, mdhd), hdlr(if audio { b"soun" } else { b"vide" }, "verif handler"), minf]);
+    let mut kids = vec![fleaf(b"tkhd", 0, 7, tkhd)];
+    if cx.chance(1, 4) {
+        let mut elst = be32(1).to_vec();
+        elst.extend_from_slice(&be32(1000));
+        elst.extend_from_slice(&be32(0));
+        elst.extend_from_slice(&[0, 1, 0, 0]);
+        kids.push(cont(b"edts", vec![fleaf(b"elst", 0, 0, elst)]));
+    }
+    kids.push(mdia);
+    cont(b"trak", kids)
+}
+
+fn gen_bmff(cx: &mut Cx, w: &mut W, kind: &str) {
+    let image = kind == "heic" || kind == "avif";
+    let (major, compat): (&[u8; 4], Vec<&[u8; 4]>) = match kind {
+        "mp4" => (cx.pick(&[b"isom", b"mp42"]), vec![b"isom", b"iso2", b"avc1", b"mp41"]),
+        "mov" => (b"qt  ", vec![b"qt  "]),
+        "heic" => (b"heic", vec![b"mif1", b"heic"]),
+        "avif" => (b"avif", vec![b"avif", b"mif1", b"miaf"]),
+        _ => (b"M4A ", vec![b"M4A ", b"mp42", b"isom"]),
+    };
+    let mut ft = major.to_vec();
+    ft.extend_from_slice(&be32(if kind == "mov" { 0x20050300 } else { 0 }));
+    let ncompat = cx.range(1, compat.len());
+    for c in &compat[..ncompat.max(1)] {
+        ft.extend_from_slice(*c);
+    }
+    let nmdat = cx.range(1, 2);
+    let mut blobs: Vec<Blob> = vec![];
+    let mut tops: Vec<Bx> = vec![];
+    let has_moov = !image || cx.chance(1, 6);
+    if has_moov {
+        let ntrak = if kind == "m4a" || image { 1 } else { cx.range(1, 3) };
+        let mut kids = vec![fleaf(b"mvhd", 0, 0, {
+            let mut d = vec![0u8; 96];
+            d[8..12].copy_from_slice(&be32(1000));
+            d[92..96].copy_from_slice(&be32(ntrak + 1));
+            d
+        })];
+        for t in 0..ntrak {
+            let audio = kind == "m4a" || (t > 0 && cx.chance(1, 2));
+            let budget = if image { 64 } else { cx.size / ntrak };
+            kids.push(gen_trak(cx, t, audio, &mut blobs, nmdat, budget));
+        }
+        if cx.chance(1, 3) {
+            let mut ukids = vec![];
+            if kind == "m4a" || cx.chance(1, 2) {
+                let n = cx.range(8, 40);
+                ukids.push(Bx::Cont { typ: *b"meta", full: Some((0, 0)), kids: vec![hdlr(b"mdir", ""), leaf(b"ilst", cx.bytes(n))] });
+            } else {
+                let n = cx.range(0, 30);
+                ukids.push(leaf(b"\xA9nam", cx.bytes(n)));
+            }
+            kids.push(cont(b"udta", ukids));
+        }
+        tops.push(cont(b"moov", kids));
+    }
+    if image {
+        // meta: hdlr, pitm, iloc, iinf, optional idat
+        let iloc_v = cx.pick(&[0u8, 1]);
+        let nitems = cx.range(1, 3);
+        let offset_size = cx.pick(&[4usize, 8]);
+        let length_size = cx.pick(&[4usize, 8]);
+        // base offsets: 0 (absolute extent offsets) or a real base with relative extents. With version 1 the SDK
+        // reads a phantom extent_index of base_offset_size bytes, so version 1 keeps base_offset_size == 0
+        // (or index_size == base_offset_size, where both parsers agree).
+        let base_size = if iloc_v == 0 { cx.pick(&[0usize, 4, 8]) } else { cx.pick(&[0usize, 0, 4]) };
+        let index_size = if iloc_v == 1 { base_size } else { 0 };
+        let mut iloc = vec![((offset_size << 4) | length_size) as u8, ((base_size << 4) | index_size) as u8];
+        iloc.extend_from_slice(&be16(nitems));
+        let mut fix = vec![];
+        let mut idat: Vec<u8> = vec![];
+        let put_n = |v: &mut Vec<u8>, n: usize, val: usize| v.extend_from_slice(&(val as u64).to_be_bytes()[8 - n..]);
+        let mdat_for_items = cx.range(0, nmdat - 1);
+        for it in 0..nitems {
+            iloc.extend_from_slice(&be16(it + 1));
+            let in_idat = iloc_v == 1 && cx.chance(1, 4);
+            if iloc_v == 1 {
+                iloc.extend_from_slice(&be16(if in_idat { 1 } else { 0 }));
+            }
+            iloc.extend_from_slice(&be16(0)); // data_reference_index
+            let next = cx.range(1, 2);
+            let per = (cx.size / nitems / next).max(1);
+            if in_idat {
+                put_n(&mut iloc, base_size, 0);
+                iloc.extend_from_slice(&be16(next));
+                for _ in 0..next {
+                    if index_size > 0 {
+                        put_n(&mut iloc, index_size, 0);
+                    }
+                    let n = cx.range(1, 24);
+                    put_n(&mut iloc, offset_size, idat.len());
+                    put_n(&mut iloc, length_size, n);
+                    idat.extend(cx.bytes(n));
+                }
+                continue;
+            }
+            let mut ids = vec![];
+            for e in 0..next {
+                let n = cx.around(per, 1);
+                blobs.push(Blob { name: format!("item{}.extent{e}", it + 1), data: cx.bytes(n), mdat: mdat_for_items });
+                ids.push(blobs.len() - 1);
+            }
+            // the SDK shifts a 4/8-byte base_offset unconditionally and, when it is zero, the extent offsets
+            // as well; a zero base with non-zero extents would be shifted twice, so a base, when present, is real
+            let use_base = base_size > 0;
+            if use_base {
+                let total: usize = ids.iter().map(|i| blobs[*i].data.len()).sum();
+                fix.push(Fix { rel: iloc.len(), width: base_size as u8, blob: ids[0], minus: None, table: format!("iloc.item{}.base", it + 1), len: total });
+            }
+            put_n(&mut iloc, base_size, 0);
+            iloc.extend_from_slice(&be16(next));
+            for (e, id) in ids.iter().enumerate() {
+                if index_size > 0 {
+                    put_n(&mut iloc, index_size, 0);
+                }
+                if use_base {
+                    fix.push(Fix { rel: iloc.len(), width: offset_size as u8, blob: *id, minus: Some(ids[0]), table: String::new(), len: 0 });
+                } else {
+                    fix.push(Fix { rel: iloc.len(), width: offset_size as u8, blob: *id, minus: None, table: format!("iloc.item{}.extent{e}", it + 1), len: blobs[*id].data.len() });
+                }
+                put_n(&mut iloc, offset_size, 0);
+                put_n(&mut iloc, length_size, blobs[*id].data.len());
+            }
+        }
+        let mut iinf = be16(nitems).to_vec();
+        for it in 0..nitems {
+            let mut e = be16(it + 1).to_vec();
+            e.extend_from_slice(&be16(0));
+            e.extend_from_slice(if kind == "heic" { b"hvc1" } else { b"av01" });
+            e.push(0);
+            iinf.extend_from_slice(&be32(12 + e.len()));
+            iinf.extend_from_slice(b"infe");
+            iinf.extend_from_slice(&[2, 0, 0, 0]);
+            iinf.extend(e);
+        }
+        let mut kids = vec![hdlr(b"pict", ""), fleaf(b"pitm", 0, 0, be16(1).to_vec())];
+        let mut rest = vec![
+            Bx::Leaf { typ: *b"iloc", full: Some((iloc_v, 0)), uuid: None, data: iloc, fix, large: false, size0: false },
+            fleaf(b"iinf", 0, 0, iinf),
+        ];
+        if !idat.is_empty() {
+            rest.push(leaf(b"idat", idat));
+        }
+        if cx.chance(1, 2) {
+            let n = cx.range(8, 60);
+            rest.push(cont(b"iprp", vec![leaf(b"ipco", cx.bytes(n))]));
+        }
+        cx.shuffle(&mut rest);
+        kids.extend(rest);
+        tops.push(Bx::Cont { typ: *b"meta", full: Some((0, 0)), kids });
+        w.note(format!("iloc v{iloc_v} off{offset_size} len{length_size} base{base_size}"));
+    }
+    // the mdat boxes: filler + blobs in random order
+    let mut mdat_blobs: Vec<Vec<usize>> = vec![vec![]; nmdat];
+    for (i, b) in blobs.iter().enumerate() {
+        mdat_blobs[b.mdat].push(i);
+    }
+    // keep the extents of one iloc item adjacent and ordered (relative offsets must stay non-negative):
+    // shuffle groups of blobs that share the name prefix up to the last '.'
+    let mut mdat_layout: Vec<(usize, Vec<usize>)> = vec![]; // (filler, blob order)
+    for list in mdat_blobs.iter() {
+        let mut groups: Vec<Vec<usize>> = vec![];
+        for &i in list {
+            let key = blobs[i].name.rsplit_once('.').map(|x| x.0.to_string()).unwrap_or_default();
+            let is_item = key.starts_with("item");
+            match groups.last_mut() {
+                Some(g) if is_item && blobs[g[0]].name.starts_with(&format!("{key}.")) => g.push(i),
+                _ => groups.push(vec![i]),
+            }
+        }
+        cx.shuffle(&mut groups);
+        let filler = if cx.chance(1, 3) { cx.range(1, 24) } else { 0 };
+        mdat_layout.push((filler, groups.into_iter().flatten().collect()));
+    }
+    let mut mdat_large = vec![];
+    for m in 0..nmdat {
+        mdat_large.push(cx.chance(1, 3));
+        let (filler, order) = &mdat_layout[m];
+        let n: usize = filler + order.iter().map(|i| blobs[*i].data.len()).sum::<usize>();
+        // the payload is written separately (blob by blob) so that regions name each chunk
+        tops.push(Bx::Leaf { typ: *b"mdat", full: None, uuid: None, data: vec![0; n], fix: vec![], large: mdat_large[m], size0: false });
+    }
+    for _ in 0..(if cx.chance(1, 2) { cx.range(1, 2) } else { 0 }) {
+        let n = cx.range(0, 40);
+        tops.push(leaf(cx.pick(&[b"free", b"skip", b"free"]), vec![0; n]));
+    }
+    if kind == "mov" && cx.chance(1, 2) {
+        tops.push(leaf(b"wide", vec![]));
+    }
+    if cx.chance(1, 5) {
+        tops.push(Bx::Leaf { typ: *b"uuid", full: None, uuid: Some(BMFF_XMP_UUID), data: cx.xmp(), fix: vec![], large: false, size0: false });
+        w.note("xmp-uuid");
+    }
+    if let Some(s) = cx.store.clone() {
+        let mut d = b"manifest\0".to_vec();
+        d.extend_from_slice(&[0; 8]);
+        d.extend(s);
+        tops.push(Bx::Leaf { typ: *b"uuid", full: Some((0, 0)), uuid: Some(BMFF_C2PA_UUID), data: d, fix: vec![], large: false, size0: false });
+    }
+    cx.shuffle(&mut tops);
+    // a last 32-bit mdat may declare size 0 ("to end of file")
+    if let Some(Bx::Leaf { typ, large, size0, .. }) = tops.last_mut() {
+        if typ == b"mdat" && !*large && cx.chance(1, 4) {
+            *size0 = true;
+            w.note("mdat-size0");
+        }
+    }
+    let ftyp = leaf(b"ftyp", ft);
+    // layout pass: absolute offsets of every blob
+    let mut at = bx_size(&ftyp);
+    let mut blob_off = vec![0usize; blobs.len()];
+    let mut mi = 0;
+    let mut order_names = vec![];
+    for t in &tops {
+        let (typ, is_c2pa) = match t {
+            Bx::Leaf { typ, uuid, .. } => (typ, uuid.map(|u| u == BMFF_C2PA_UUID).unwrap_or(false)),
+            Bx::Cont { typ, .. } => (typ, false),
+        };
+        order_names.push(if is_c2pa { "C2PA".to_string() } else { String::from_utf8_lossy(typ).trim_end().to_string() });
+        if typ == b"mdat" {
+            let (filler, order) = &mdat_layout[mi];
+            let mut p = at + bx_hdr_len(t) + filler;
+            for i in order {
+                blob_off[*i] = p;
+                p += blobs[*i].data.len();
+            }
+            mi += 1;
+        }
+        at += bx_size(t);
+    }
+    // write
+    bx_write(w, &ftyp, "", &blob_off);
+    let mut mi = 0;
+    for t in &tops {
+        match t {
+            Bx::Leaf { typ, large, size0, .. } if typ == b"mdat" => {
+                let u = w.unit("mdat");
+                let total = bx_size(t);
+                let mut h = vec![];
+                if *large {
+                    h.extend_from_slice(&be32(1));
+                    h.extend_from_slice(b"mdat");
+                    h.extend_from_slice(&(total as u64).to_be_bytes());
+                } else {
+                    h.extend_from_slice(&be32(if *size0 { 0 } else { total }));
+                    h.extend_from_slice(b"mdat");
+                }
+                w.put(format!("{u}.hdr"), &h);
+                let (filler, order) = &mdat_layout[mi];
+                if *filler > 0 {
+                    let f = cx.bytes(*filler);
+                    w.put(format!("{u}.filler"), &f);
+                }
+                for i in order {
+                    debug_assert_eq!(w.pos(), blob_off[*i]);
+                    w.put(format!("{u}.{}", blobs[*i].name), &blobs[*i].data);
+                }
+                mi += 1;
+            }
+            _ => bx_write(w, t, "", &blob_off),
+        }
+    }
+    w.note(format!("order ftyp,{}", order_names.join(",")));
+    if mdat_large.iter().any(|x| *x) {
+        w.note("mdat-largesize");
+    }
+}
